@@ -141,12 +141,54 @@ def cases(tier, seed):
     pools["opids-tagged"] = pools["opids"] if tier != "quick" else over(["a", "B", "_", "-"], 2) + ["getUser", "get_user", "GetUser", "get-user"]
     pools["tags"] = (over(["a", "B", "1", "_", "-", ".", "/", " "], 2 if tier == "quick" else 3)
                      + ["user.profile", "user-profile", "user profile", "User/Profile", "user:profile", "userProfile", "user_profile", "UserProfile"] + extras)
+    # names the generator INVENTS for inline schemas: the same local name under two different owners must give two classes
+    for owner in INVENTED_OWNERS:
+        for same in (False, True):
+            out.append({"kind": "ns", "ns": "invented", "names": [owner, "same-values" if same else "different-values"]})
     for ns in ("props", "params", "schemas", "enum", "opids", "opids-tagged", "tags"):
         seen = set()
         pool = [s for s in pools[ns] if not (s in seen or seen.add(s))]
         for names in expand_plan({"ns": ns, "strings": pool}):
             out.append({"kind": "ns", "ns": ns, "names": names})
     return out
+
+
+INVENTED_OWNERS = ["op-param-array", "op-param-scalar", "path-item-param-array", "path-item-param-scalar", "op-vs-path-item-param", "schema-prop", "schema-array-prop",
+                   "component-param-array"]
+
+
+def invented_doc(owner, same):
+    """two owners (operations / path items / schemas) each with an inline enum under the same local name `status`"""
+    va, vb = ["open", "shipped"], (["open", "shipped"] if same else ["new", "closed"])
+
+    def enum(vals, array):
+        e = {"type": "string", "enum": vals}
+        return {"type": "array", "items": e} if array else e
+
+    array = "array" in owner
+    if owner.startswith("schema"):
+        return sandbox.base_doc({"Order": {"type": "object", "properties": {"status": enum(va, array)}},
+                                 "Ticket": {"type": "object", "properties": {"status": enum(vb, array)}}}), None
+    pa = {"name": "status", "in": "query", "schema": enum(va, array)}
+    pb = {"name": "status", "in": "query", "schema": enum(vb, array)}
+    resp = {"204": {"description": "d"}}
+    paths = {"/orders": {"get": {"operationId": "listOrders", "tags": ["shop"], "responses": resp}},
+             "/tickets": {"get": {"operationId": "listTickets", "tags": ["shop"], "responses": resp}}}
+    doc = sandbox.base_doc(None, paths)
+    if owner.startswith("op-param"):
+        paths["/orders"]["get"]["parameters"] = [pa]
+        paths["/tickets"]["get"]["parameters"] = [pb]
+    elif owner.startswith("path-item-param"):
+        paths["/orders"]["parameters"] = [pa]
+        paths["/tickets"]["parameters"] = [pb]
+    elif owner == "op-vs-path-item-param":
+        paths["/orders"]["get"]["parameters"] = [pa]
+        paths["/tickets"]["parameters"] = [pb]
+    elif owner == "component-param-array":
+        doc["components"] = {"parameters": {"OrderStatus": pa, "TicketStatus": pb}}
+        paths["/orders"]["get"]["parameters"] = [{"$ref": "#/components/parameters/OrderStatus"}]
+        paths["/tickets"]["get"]["parameters"] = [{"$ref": "#/components/parameters/TicketStatus"}]
+    return doc, {"list_orders": va, "list_tickets": vb}
 
 
 NS_DERIVE = {
@@ -392,6 +434,8 @@ def run_ns_tuple(ns, names):
 
     if ns == "schemas":
         schemas = {n: {"type": "object", "properties": {f"p{i}": {"type": "string"}}} for i, n in enumerate(names)}
+        # every colliding schema is also REFERENCED: the reference must resolve to that schema's own class, not to its namesake's
+        schemas["ZzRefs"] = {"type": "object", "properties": {f"r{i}": {"$ref": "#/components/schemas/" + n} for i, n in enumerate(names)}}
         doc = sandbox.base_doc(schemas)
         files, err = _gen(doc)
         if err is not None:
@@ -413,10 +457,23 @@ def run_ns_tuple(ns, names):
             stem = os.path.basename(rel)[:-3]
             if not ident_ok(stem):
                 bad("invalid", "module " + classify_bad(stem), f"module {stem!r}")
+        refs_cls = classes.pop("ZzRefs", None)
         fieldsets = sorted(tuple(v[1]) for v in classes.values())
         want = sorted((f"p{i}",) for i in range(len(names)))
         if fieldsets != want:
             bad("dropped", "a schema has no model of its own", f"schemas {names} -> classes {classes}")
+        elif refs_cls is not None:
+            tree, _ = _parse(files[refs_cls[0]])
+            for node in tree.body:
+                if isinstance(node, ast.ClassDef) and node.name == "ZzRefs":
+                    for st in node.body:
+                        if isinstance(st, ast.AnnAssign) and isinstance(st.target, ast.Name) and st.target.id.startswith("r") and st.target.id[1:].isdigit():
+                            i = int(st.target.id[1:])
+                            targets = [n.id for n in ast.walk(st.annotation) if isinstance(n, ast.Name) and n.id in classes]
+                            targets += [c for n in ast.walk(st.annotation) if isinstance(n, ast.Constant) and isinstance(n.value, str) for c in classes if c == n.value.strip()]
+                            if targets and tuple(classes[targets[0]][1]) != (f"p{i}",):
+                                bad("merged", "a reference to one schema is typed as its namesake's class",
+                                    f"ZzRefs.{st.target.id} -> {targets[0]} with fields {classes[targets[0]][1]}, expected the class with field p{i}; schemas {names}")
         return F, "checked"
 
     if ns == "enum":
@@ -489,6 +546,63 @@ def run_ns_tuple(ns, names):
         if len(urls) != len(names) and len(mn) == len(names):
             bad("merged", "two methods address the same path", f"urls={urls}")
         return F, "checked"
+    if ns == "invented":
+        owner, same = names[0], names[1] == "same-values"
+        doc, want_ops = invented_doc(owner, same)
+        files, err = _gen(doc)
+        if err is not None:
+            return F, "rejected:" + type(err).__name__
+        enums = {}
+        models = {}
+        for rel, src in files.items():
+            if rel.startswith("models/") and not rel.endswith("__init__.py"):
+                tree, se = _parse(src)
+                if tree is None:
+                    bad("syntax", _norm(se.msg), f"{rel}: {se.msg}")
+                    continue
+                for cname, info in _class_fields(tree).items():
+                    vals = sorted(str(v) for v in info["assigns"].values() if isinstance(v, str))
+                    if vals and not info["fields"]:
+                        enums[cname] = vals
+                    models[cname] = (rel, tree)
+
+        def enum_of(annotation):
+            ids = [n.id for n in ast.walk(annotation) if isinstance(n, ast.Name)] + \
+                  [n.value.strip() for n in ast.walk(annotation) if isinstance(n, ast.Constant) and isinstance(n.value, str)]
+            return [i for i in ids if i in enums]
+
+        seen_any = False
+        if want_ops is None:
+            for cls, vals in (("Order", ["open", "shipped"]), ("Ticket", ["open", "shipped"] if same else ["new", "closed"])):
+                if cls not in models:
+                    bad("dropped", "a schema has no model of its own", f"{cls}; classes {sorted(models)}")
+                    continue
+                for node in models[cls][1].body:
+                    if isinstance(node, ast.ClassDef) and node.name == cls:
+                        for st in node.body:
+                            if isinstance(st, ast.AnnAssign) and isinstance(st.target, ast.Name) and st.target.id == "status":
+                                es = enum_of(st.annotation)
+                                if es:
+                                    seen_any = True
+                                    if enums[es[0]] != sorted(vals):
+                                        bad("merged", "an inline enum is typed as another owner's enum class", f"{cls}.status -> {es[0]} {enums[es[0]]}, spec values {sorted(vals)}")
+        else:
+            src = files.get("endpoints/shop.py")
+            tree, se = _parse(src) if src else (None, None)
+            if tree is None:
+                bad("lost", "endpoint file missing or unparsable", f"files={sorted(files)}")
+                return F, "missing"
+            for node in ast.walk(tree):
+                if isinstance(node, ast.AsyncFunctionDef) and node.name in want_ops:
+                    for a in node.args.args + node.args.kwonlyargs:
+                        if a.arg == "status" and a.annotation is not None:
+                            es = enum_of(a.annotation)
+                            if es:
+                                seen_any = True
+                                if enums[es[0]] != sorted(want_ops[node.name]):
+                                    bad("merged", "an inline enum is typed as another owner's enum class",
+                                        f"{node.name}(status: {ast.unparse(a.annotation)}) -> {es[0]} {enums[es[0]]}, spec values {sorted(want_ops[node.name])}")
+        return F, "checked" if seen_any else "no-enum-class-emitted"
     if ns == "tags":
         # tag spellings that derive the same module name, one operation each: every operation must stay callable on some
         # client (merging the SPELLINGS into one client is fine, merging or dropping the OPERATIONS is not), and every module,
